@@ -34,7 +34,7 @@ def describe(rep):
     rep.func(BaseTransfer.get_transfer_matrix_Q, mesh_to_mesh.__init__, mesh_to_mesh.restrict, mesh_to_mesh.prolong, th.interpolation_matrix_1d,
              th.restriction_matrix_1d, nocoarse.restrict, nocoarse.prolong)
     rep.explanation = __doc__
-    rep.rule = 'case = node-set pair or (grid sizes, order, periodicity, equidist_nested, dimension, data type) or (grids, order, dimension, component layout first/last, data type) for problems with several components; one or a few SMT queries (QF_LRA) over all data in the unit box'
+    rep.rule = 'case = node-set pair or (grid sizes, order, periodicity, equidist_nested, dimension, data type) or (grids, order, dimension, component layout first/last, data type) for problems with several components; object-level node transfers: the matrices AND what prolong() / restrict() do to symbolic node values; one or a few SMT queries (QF_LRA) over all data in the unit box'
     rep.assume('tables come from qmat / scipy BarycentricInterpolator (not symbolic): tolerance 1e-11 (time) / 1e-12 (space) on results for data in [-1,1]',
                'space grids: refinement ratio 2, coordinates i*dx taken as exact rationals')
     rep.out_of_scope('FFT transfers with refinement ratios other than 2', 'TransferParticles_NoCoarse', 'grid sizes > 17 (quick) / 33', 'node counts > 6', '3-D in the quick tier')
